@@ -111,3 +111,7 @@ def replay(cex):
 
 def finding_key(cex):
     return "seq:" + cex["seq"]
+
+
+def fallback(item):
+    return [dict(seq=q, prelude=std_prelude(item["N"], item["npos"], item["nneg"])) for q in fallback_seqs(item)]
